@@ -566,6 +566,12 @@ func (f *Field) applyOptions(opt FieldOptions) error {
 				f.options.CacheSize = opt.CacheSize
 			}
 		}
+		// A field without a cache has no cache size, whether or not a size
+		// was given: otherwise the default size is reported until the next
+		// restart, when the saved options are applied again and it drops to 0.
+		if f.options.CacheType == CacheTypeNone {
+			f.options.CacheSize = 0
+		}
 		f.options.Min = 0
 		f.options.Max = 0
 		f.options.Base = 0
